@@ -4,6 +4,7 @@ import (
 	"fmt"
 	"go/constant"
 	"go/token"
+	"sort"
 	"strings"
 
 	"golang.org/x/tools/go/ssa"
@@ -186,6 +187,9 @@ func builtinRules(c *Ctx, names []string, ref *effRef, rulePrefix string) {
 					fmt.Sprintf("effects reachable after the data error: %v — an undecodable/invalid input must not fabricate a value (documented exception: %q)", leaked, ref.DataEx[name]))
 			}
 		})
+		if rulePrefix == "C11" && freshResult[name] != "" {
+			resultFresh(c, name, f)
+		}
 		// return discipline
 		ts := &typestate{fn: f, nstate: 3, init: 0}
 		ts.trans = func(in ssa.Instruction, st int) int {
@@ -388,6 +392,29 @@ func checkC12(c *Ctx) {
 		})
 	}
 	r.Ob("PATTERN-SCOPE", "StackExitCur discards the patterns of the frame it leaves", "pkg/engine/runtime/context.go", okDrop, "ctx.stackCur.CheckPattern = nil before returning to the parent")
+	// the check pass starts from an empty root frame: the task is pooled, so a frame (and its pattern table) kept
+	// from an earlier check would make another script's definitions visible here
+	{
+		chk := t.Method(pRT, "Script", "Check")
+		ok, via := false, ""
+		if chk != nil {
+			var walk *ssa.Call
+			allInstrs(chk, func(in ssa.Instruction) {
+				if call, isC := in.(*ssa.Call); isC && call.Call.StaticCallee() != nil && call.Call.StaticCallee().Name() == "RunStmtsCheck" {
+					walk = call
+				}
+			})
+			allInstrs(chk, func(in ssa.Instruction) {
+				if call, isC := in.(*ssa.Call); isC && call.Call.StaticCallee() != nil && walk != nil && precedes(call, walk) {
+					if g := call.Call.StaticCallee(); g.Pkg == chk.Pkg && freshRootFrame(g) {
+						ok, via = true, g.Name()
+					}
+				}
+			})
+		}
+		r.Ob("PATTERN-SCOPE", "Script.Check starts from a brand-new root frame", "pkg/engine/runtime/runtime.go", ok,
+			"a function that Check calls on every path before walking the statements assigns stackHeader and stackCur a newly allocated Stack on every path (found: "+via+") — a frame reused from the pooled task carries the previous script's add_pattern definitions")
+	}
 	// add_pattern checker registers through SetPattern on success only
 	for _, spec := range []struct {
 		f      *ssa.Function
@@ -529,4 +556,201 @@ func edgeInto(pred, b *ssa.BasicBlock) []edgeCond {
 		}
 	}
 	return nil
+}
+
+// freshResult: builtins documented to return a newly computed container; the object they hand out must be built in
+// that very call and must not be kept anywhere else, or a later call (or a later mutation through the script
+// variable it was assigned to) changes what another call returned.
+var freshResult = map[string]string{
+	"load_json": "returns the value decoded from its argument",
+}
+
+// pureResultCallees: callees the decoded object may be passed to without escaping.
+var pureResultCallees = map[string]bool{"Unmarshal": true, "DectDataType": true, "ReturnAppend": true}
+
+// resultFresh: backward, the value given to ReturnAppend comes from local storage filled in this call (a local
+// variable, json.Unmarshal into it, DectDataType of it) and never from a field, a map, a package variable or another
+// call; forward, neither that local storage nor the values read from it are stored or passed anywhere else.
+func resultFresh(c *Ctx, name string, f *ssa.Function) {
+	r, t := c.R, c.T
+	n := 0
+	allInstrs(f, func(in ssa.Instruction) {
+		call, ok := in.(*ssa.Call)
+		if !ok || call.Call.StaticCallee() == nil || call.Call.StaticCallee().Name() != "ReturnAppend" || len(call.Call.Args) < 2 {
+			return
+		}
+		n++
+		vals := map[ssa.Value]bool{}
+		allocs := map[*ssa.Alloc]bool{}
+		var foreign []string
+		var back func(v ssa.Value, depth int)
+		back = func(v ssa.Value, depth int) {
+			if vals[v] || depth > 12 {
+				return
+			}
+			vals[v] = true
+			switch x := v.(type) {
+			case *ssa.Const:
+			case *ssa.MakeInterface:
+				back(x.X, depth+1)
+			case *ssa.ChangeInterface:
+				back(x.X, depth+1)
+			case *ssa.Phi:
+				for _, e := range x.Edges {
+					back(e, depth+1)
+				}
+			case *ssa.UnOp:
+				if x.Op != token.MUL {
+					foreign = append(foreign, "computed "+path(x))
+					return
+				}
+				a, isA := x.X.(*ssa.Alloc)
+				if !isA {
+					foreign = append(foreign, "read of "+path(x.X)+" (storage that outlives the call)")
+					return
+				}
+				if !allocs[a] {
+					allocs[a] = true
+					for _, ref := range *a.Referrers() {
+						if st, isS := ref.(*ssa.Store); isS && st.Addr == ssa.Value(a) {
+							back(st.Val, depth+1)
+						}
+					}
+				}
+			case *ssa.Extract:
+				cl, isC := x.Tuple.(*ssa.Call)
+				if isC && cl.Call.StaticCallee() != nil && cl.Call.StaticCallee().Name() == "DectDataType" && x.Index == 0 {
+					back(cl.Call.Args[0], depth+1)
+					return
+				}
+				foreign = append(foreign, "result of "+path(x.Tuple))
+			case *ssa.Call:
+				foreign = append(foreign, "result of "+path(x))
+			case *ssa.MakeMap, *ssa.MakeSlice:
+			default:
+				foreign = append(foreign, fmt.Sprintf("%T %s", v, path(v)))
+			}
+		}
+		back(call.Call.Args[1], 0)
+		// forward: uses of the local storage and of the values read from it
+		var escapes []string
+		use := func(v ssa.Value, ref ssa.Instruction) {
+			switch u := ref.(type) {
+			case *ssa.Store:
+				if a, isA := u.Addr.(*ssa.Alloc); isA && allocs[a] {
+					return
+				}
+				if u.Val == v {
+					escapes = append(escapes, "stored to "+path(u.Addr)+" at "+t.Pos(u.Pos()))
+				}
+			case *ssa.Call:
+				cal := u.Call.StaticCallee()
+				if cal != nil && pureResultCallees[cal.Name()] {
+					return
+				}
+				escapes = append(escapes, "passed to "+path(u)+" at "+t.Pos(u.Pos()))
+			case *ssa.UnOp, *ssa.MakeInterface, *ssa.ChangeInterface, *ssa.Phi, *ssa.Extract, *ssa.TypeAssert, *ssa.BinOp, *ssa.If, *ssa.DebugRef:
+			case *ssa.Return:
+			default:
+				escapes = append(escapes, fmt.Sprintf("used by %T at %s", ref, t.Pos(ref.Pos())))
+			}
+		}
+		for a := range allocs {
+			for _, ref := range *a.Referrers() {
+				use(a, ref)
+				if ld, isL := ref.(*ssa.UnOp); isL && ld.Op == token.MUL {
+					vals[ld] = true // every read of the local storage yields the object
+				}
+			}
+		}
+		for changed := true; changed; {
+			changed = false
+			for v := range vals {
+				if refs := v.Referrers(); refs != nil {
+					for _, ref := range *refs {
+						switch u := ref.(type) {
+						case *ssa.MakeInterface, *ssa.ChangeInterface, *ssa.Phi:
+							if !vals[u.(ssa.Value)] {
+								vals[u.(ssa.Value)] = true
+								changed = true
+							}
+						}
+					}
+				}
+			}
+		}
+		for v := range vals {
+			if _, isC := v.(*ssa.Const); isC {
+				continue
+			}
+			if refs := v.Referrers(); refs != nil {
+				for _, ref := range *refs {
+					use(v, ref)
+				}
+			}
+		}
+		sort.Strings(foreign)
+		sort.Strings(escapes)
+		r.Ob("RESULT-FRESH", fmt.Sprintf("builtin %s ReturnAppend #%d hands out an object built in this call and kept nowhere else", name, n), t.Pos(call.Pos()),
+			len(foreign) == 0 && len(escapes) == 0 && len(allocs) > 0,
+			fmt.Sprintf("%s; origins outside the call: %v; other places the object reaches: %v — an object shared with storage that outlives the call is changed under a second caller", freshResult[name], foreign, escapes))
+	})
+	r.FloorN("ReturnAppend sites of fresh-result builtins ("+name+")", n, 1)
+}
+
+// freshStack: v is a newly allocated runtime.Stack (a composite literal, or the result of a callee all of whose
+// returns are such literals) — not something read from an existing object.
+func freshStack(v ssa.Value) bool {
+	if a, ok := rootOf(v).(*ssa.Alloc); ok && a.Heap && namedOf(a.Type()) == "runtime.Stack" {
+		return true
+	}
+	if call, ok := v.(*ssa.Call); ok {
+		g := call.Call.StaticCallee()
+		if g == nil || len(g.Blocks) == 0 {
+			return false
+		}
+		n, all := 0, true
+		allInstrs(g, func(in ssa.Instruction) {
+			if ret, isR := in.(*ssa.Return); isR && len(ret.Results) == 1 {
+				n++
+				if a, ok := rootOf(ret.Results[0]).(*ssa.Alloc); !ok || !a.Heap || namedOf(a.Type()) != "runtime.Stack" {
+					all = false
+				}
+			}
+		})
+		return n > 0 && all
+	}
+	return false
+}
+
+// freshRootFrame: f assigns, with no condition, a newly allocated Stack to both stackHeader and stackCur of a task
+// (stackCur may be given the stackHeader just assigned).
+func freshRootFrame(f *ssa.Function) bool {
+	hdr, cur := false, false
+	var hdrStore *ssa.Store
+	allInstrs(f, func(in ssa.Instruction) {
+		s, ok := in.(*ssa.Store)
+		if !ok || len(controlling(s.Block())) != 0 {
+			return
+		}
+		fa, ok := s.Addr.(*ssa.FieldAddr)
+		if !ok {
+			return
+		}
+		switch fieldName(fa) {
+		case "stackHeader":
+			if freshStack(s.Val) {
+				hdr, hdrStore = true, s
+			}
+		case "stackCur":
+			if freshStack(s.Val) {
+				cur = true
+			} else if ld, isL := s.Val.(*ssa.UnOp); isL && hdrStore != nil {
+				if fa2, isF := ld.X.(*ssa.FieldAddr); isF && fieldName(fa2) == "stackHeader" && fa2.X == hdrStore.Addr.(*ssa.FieldAddr).X && precedes(hdrStore, ld) {
+					cur = true
+				}
+			}
+		}
+	})
+	return hdr && cur
 }
